@@ -35,14 +35,14 @@ CHECKS = {
    technique='TLA+ motor characteristic (Motor.tla) with its documented consequences model-checked on a rational grid + TLC trace validation of recorded compute_torque / compute_electric_current calls (Trace_Motor.tla)',
    text=('Motor.tla transcribes the documented torque and current laws; TLC checks their stated consequences (standstill, no-load point, continuity across the dead-zone boundary, oddness) exactly on a grid. '
          'The harness drives real DCMotor objects (constants in random units) over duty cycles including the dead-zone boundary as decimal and float quotient and its +-1,+-2 ulp neighbours, '
-         'and speeds beyond no-load speed; TLC decides every recorded output against the spec in exact arithmetic; neither call may raise.'),
+         'and speeds beyond no-load speed, revisit sequences on one motor object, the driving torque handed back through the setter in another unit; TLC decides every recorded output against the spec in exact arithmetic; neither call may raise. The recorded motor current of every instant of the shared solver campaign is judged by the same law (SolverOps!CurrentFails).'),
    ref='DESIGN.md section 4 C08, section 3.3',
    note=TB + '; the branch taken within 1e-10 relative of the dead-zone boundary is not judged (value still is).'),
  'C09': dict(
    technique='TLA+ gear formulas and flags (Gear.tla; Lewis table, virtual teeth, squared Hertz stress; lemmas model-checked) + TLC trace validation of real gear objects over the complete flag space (Trace_Gear.tla)',
    text=('Gear.tla states the Lewis interpolation, virtual teeth number, tangential force per role, bending stress (incl. worm-wheel form) and squared Hertz stress with helix angles as rational functions of tan(beta/2); '
          'TLC checks lemmas (beta=0 reduces to spur, interpolation through the table, monotone, clamped). The harness builds real gears for every teeth number 10..520, every subset of optional data x roles x mated/unmated '
-         '(complete finite flag space) and seeded random parameters in random units; TLC decides flags, ValueError contract and every value.'),
+         '(complete finite flag space), compute / re-mate / compute sequences and seeded random parameters in random units; TLC decides flags, ValueError contract and every value. The recorded force / bending / contact stress of every gear at every instant of the shared solver campaign is judged by the same formulas (SolverOps!StressFails).'),
    ref='DESIGN.md section 4 C09, section 3.4',
    note=TB + '; tan(beta/2) is computed with math.tan from the angle the object holds; tan 20 deg and pi are 50-digit rationals; the worm thread force is modelled as implemented (O4).'),
 
@@ -63,47 +63,47 @@ CHECKS = {
 
  'C01': dict(
    technique='TLA+ step relation SolverOps!CoupledFails (ratios recomputed from declared teeth/starts) evaluated by TLC on every recorded instant of real simulations (Trace_Solver.tla)',
-   text="SolverOps.tla states the coupling relation for every adjacent pair with the ratio recomputed from the declared relation; TLC validates it in exact arithmetic on every recorded instant of every traced execution, including instants where the powertrain is held, after continuation, early stop and reset. Design level: Solver.tla (the simulation as a state machine over exact instances, all schedules of new solver / run / continue / reset / rerun; its invariants are these very clauses with eps = 0; it refines the finite sign abstraction LockAbs). Code level, one shared campaign: seeded random chains of 2..12 elements (loads of position / speed / time, rule sets, stop conditions, continuation with another dt and unit, reset / rerun, relations declared in any order, superseded and re-declared on a live model; half with every input in a random unit), crafted lock / stop / re-declaration scenarios, exact (dyadic) instances judged AT their thresholds, and executions of the repository's own solver test recorded by a pytest plugin; every recorded instant is one TLC state of Trace_Solver.tla, the solver's private lock bit is an unlogged spec variable.",
+   text="SolverOps.tla states the coupling relation for every adjacent pair with the ratio recomputed from the declared relation; TLC validates it in exact arithmetic on every recorded instant of every traced execution, including instants where the powertrain is held, after continuation, early stop and reset. Design level: Solver.tla (the simulation as a state machine over exact instances, all schedules of new solver / run / continue / reset / rerun; its invariants are these very clauses with eps = 0; it refines the finite sign abstraction LockAbs). Code level, one shared campaign: seeded random chains of 2..12 elements (loads of position / speed / time, rule sets, stop conditions, continuation with another dt and unit, reset / rerun, relations declared in any order, superseded and re-declared on a live model, friction sweeps, idler pairs, double worm stages, further external torques on intermediate gears, user-set duty cycle and re-indexed output between runs, numpy-valued loads; half with every input in a random unit), crafted lock / stop / re-declaration scenarios, exact (dyadic) instances judged AT their thresholds, and executions of the repository's own solver test recorded by a pytest plugin; every recorded instant is one TLC state of Trace_Solver.tla, the solver's private lock bit is an unlogged spec variable.",
    ref='DESIGN.md section 4 C01, 3.7',
    note=TB + '; decisions within 1e-9 relative of their threshold are not judged (the trace spec branches); instances are seeded random, not exhaustive.'),
  'C02': dict(
    technique='TLA+ step relation SolverOps!TorqueFails (motor law from Motor.tla, efficiencies recomputed from declared efficiency / worm friction formula, harness-owned load function evaluated exactly) checked by TLC on every recorded instant',
-   text="Driving torque of the motor from Motor.tla at the recorded speed and duty cycle, propagation with efficiency x ratio, load function evaluated at this instant's recorded time/position/speed, upstream load propagation and net torque, each as a named clause evaluated by TLC on every recorded instant. Design level: Solver.tla (the simulation as a state machine over exact instances, all schedules of new solver / run / continue / reset / rerun; its invariants are these very clauses with eps = 0; it refines the finite sign abstraction LockAbs). Code level, one shared campaign: seeded random chains of 2..12 elements (loads of position / speed / time, rule sets, stop conditions, continuation with another dt and unit, reset / rerun, relations declared in any order, superseded and re-declared on a live model; half with every input in a random unit), crafted lock / stop / re-declaration scenarios, exact (dyadic) instances judged AT their thresholds, and executions of the repository's own solver test recorded by a pytest plugin; every recorded instant is one TLC state of Trace_Solver.tla, the solver's private lock bit is an unlogged spec variable.",
+   text="Driving torque of the motor from Motor.tla at the recorded speed and duty cycle, propagation with efficiency x ratio, load function evaluated at this instant's recorded time/position/speed, upstream load propagation and net torque, each as a named clause evaluated by TLC on every recorded instant. Design level: Solver.tla (the simulation as a state machine over exact instances, all schedules of new solver / run / continue / reset / rerun; its invariants are these very clauses with eps = 0; it refines the finite sign abstraction LockAbs). Code level, one shared campaign: seeded random chains of 2..12 elements (loads of position / speed / time, rule sets, stop conditions, continuation with another dt and unit, reset / rerun, relations declared in any order, superseded and re-declared on a live model, friction sweeps, idler pairs, double worm stages, further external torques on intermediate gears, user-set duty cycle and re-indexed output between runs, numpy-valued loads; half with every input in a random unit), crafted lock / stop / re-declaration scenarios, exact (dyadic) instances judged AT their thresholds, and executions of the repository's own solver test recorded by a pytest plugin; every recorded instant is one TLC state of Trace_Solver.tla, the solver's private lock bit is an unlogged spec variable.",
    ref='DESIGN.md section 4 C02, 3.7',
    note=TB + '; decisions within 1e-9 relative of their threshold are not judged (the trace spec branches); instances are seeded random, not exhaustive.'),
  'C03': dict(
    technique='TLA+ step relation SolverOps!DynFails/StepFails (equivalent inertia by the documented reduction; speed-then-position update anchored on the previous recorded instant, dt from the recorded axis) checked by TLC for every pair of consecutive instants',
-   text="One-step validation: each recorded instant is checked against the previous recorded one (no error accumulation), with the held/not-held hypothesis supplied by the spec's lock machine. Design level: Solver.tla (the simulation as a state machine over exact instances, all schedules of new solver / run / continue / reset / rerun; its invariants are these very clauses with eps = 0; it refines the finite sign abstraction LockAbs). Code level, one shared campaign: seeded random chains of 2..12 elements (loads of position / speed / time, rule sets, stop conditions, continuation with another dt and unit, reset / rerun, relations declared in any order, superseded and re-declared on a live model; half with every input in a random unit), crafted lock / stop / re-declaration scenarios, exact (dyadic) instances judged AT their thresholds, and executions of the repository's own solver test recorded by a pytest plugin; every recorded instant is one TLC state of Trace_Solver.tla, the solver's private lock bit is an unlogged spec variable.",
+   text="One-step validation: each recorded instant is checked against the previous recorded one (no error accumulation), with the held/not-held hypothesis supplied by the spec's lock machine. Design level: Solver.tla (the simulation as a state machine over exact instances, all schedules of new solver / run / continue / reset / rerun; its invariants are these very clauses with eps = 0; it refines the finite sign abstraction LockAbs). Code level, one shared campaign: seeded random chains of 2..12 elements (loads of position / speed / time, rule sets, stop conditions, continuation with another dt and unit, reset / rerun, relations declared in any order, superseded and re-declared on a live model, friction sweeps, idler pairs, double worm stages, further external torques on intermediate gears, user-set duty cycle and re-indexed output between runs, numpy-valued loads; half with every input in a random unit), crafted lock / stop / re-declaration scenarios, exact (dyadic) instances judged AT their thresholds, and executions of the repository's own solver test recorded by a pytest plugin; every recorded instant is one TLC state of Trace_Solver.tla, the solver's private lock bit is an unlogged spec variable.",
    ref='DESIGN.md section 4 C03, 3.7',
    note=TB + '; decisions within 1e-9 relative of their threshold are not judged (the trace spec branches); instances are seeded random, not exhaustive.'),
  'C11': dict(
    technique='TLA+ grid relation Trace_Solver!GridFails/RunEndFails checked by TLC on every run of every traced schedule (fresh, continued in other time units, stopped early)',
-   text="Every recorded instant must equal start + k dt, none may lie beyond T, a run without stop condition records exactly round(T/dt) further instants, with a stop condition a prefix. Design level: Solver.tla (the simulation as a state machine over exact instances, all schedules of new solver / run / continue / reset / rerun; its invariants are these very clauses with eps = 0; it refines the finite sign abstraction LockAbs). Code level, one shared campaign: seeded random chains of 2..12 elements (loads of position / speed / time, rule sets, stop conditions, continuation with another dt and unit, reset / rerun, relations declared in any order, superseded and re-declared on a live model; half with every input in a random unit), crafted lock / stop / re-declaration scenarios, exact (dyadic) instances judged AT their thresholds, and executions of the repository's own solver test recorded by a pytest plugin; every recorded instant is one TLC state of Trace_Solver.tla, the solver's private lock bit is an unlogged spec variable.",
+   text="Every recorded instant must equal start + k dt, none may lie beyond T, a run without stop condition records exactly round(T/dt) further instants, with a stop condition a prefix. Design level: Solver.tla (the simulation as a state machine over exact instances, all schedules of new solver / run / continue / reset / rerun; its invariants are these very clauses with eps = 0; it refines the finite sign abstraction LockAbs). Code level, one shared campaign: seeded random chains of 2..12 elements (loads of position / speed / time, rule sets, stop conditions, continuation with another dt and unit, reset / rerun, relations declared in any order, superseded and re-declared on a live model, friction sweeps, idler pairs, double worm stages, further external torques on intermediate gears, user-set duty cycle and re-indexed output between runs, numpy-valued loads; half with every input in a random unit), crafted lock / stop / re-declaration scenarios, exact (dyadic) instances judged AT their thresholds, and executions of the repository's own solver test recorded by a pytest plugin; every recorded instant is one TLC state of Trace_Solver.tla, the solver's private lock bit is an unlogged spec variable.",
    ref='DESIGN.md section 4 C11',
    note=TB + '; decisions within 1e-9 relative of their threshold are not judged (the trace spec branches); instances are seeded random, not exhaustive.'),
  'C13': dict(
    technique='TLA+ lock machine SolverOps!LockSet/LockBranch with the lock bit as an UNLOGGED trace-spec variable; TLC confirms it from its observable consequences at every instant (SignSafe, Held*, ClampWithoutSelfLocking)',
-   text="The spec predicts the lock bit from the duty cycle in force, the advanced motor speed and the motor net torque of the previous instant; the recorded instant must be explained by one of the predicted values; the stated sign invariant is checked directly on recorded speeds. Design level: Solver.tla (the simulation as a state machine over exact instances, all schedules of new solver / run / continue / reset / rerun; its invariants are these very clauses with eps = 0; it refines the finite sign abstraction LockAbs). Code level, one shared campaign: seeded random chains of 2..12 elements (loads of position / speed / time, rule sets, stop conditions, continuation with another dt and unit, reset / rerun, relations declared in any order, superseded and re-declared on a live model; half with every input in a random unit), crafted lock / stop / re-declaration scenarios, exact (dyadic) instances judged AT their thresholds, and executions of the repository's own solver test recorded by a pytest plugin; every recorded instant is one TLC state of Trace_Solver.tla, the solver's private lock bit is an unlogged spec variable.",
+   text="Whether the chain is self-locking is decided by the specification from the declared worm matings (the implementation's flag is a judged observation). The spec predicts the lock bit from the duty cycle in force, the advanced motor speed and the motor net torque of the previous instant; the recorded instant must be explained by one of the predicted values; the stated sign invariant is checked directly on recorded speeds. Design level: Solver.tla (the simulation as a state machine over exact instances, all schedules of new solver / run / continue / reset / rerun; its invariants are these very clauses with eps = 0; it refines the finite sign abstraction LockAbs). Code level, one shared campaign: seeded random chains of 2..12 elements (loads of position / speed / time, rule sets, stop conditions, continuation with another dt and unit, reset / rerun, relations declared in any order, superseded and re-declared on a live model, friction sweeps, idler pairs, double worm stages, further external torques on intermediate gears, user-set duty cycle and re-indexed output between runs, numpy-valued loads; half with every input in a random unit), crafted lock / stop / re-declaration scenarios, exact (dyadic) instances judged AT their thresholds, and executions of the repository's own solver test recorded by a pytest plugin; every recorded instant is one TLC state of Trace_Solver.tla, the solver's private lock bit is an unlogged spec variable.",
    ref='DESIGN.md section 4 C13',
    note=TB + '; decisions within 1e-9 relative of their threshold are not judged (the trace spec branches); instances are seeded random, not exhaustive.'),
  'C14': dict(
    technique='TLA+ arbitration Control!Arbitrate (lemmas model-checked in MC_Control) + TLC validation of every logged control phase (proposals of every rule, resulting duty cycle, conflict error) in whole simulations',
-   text="Harness-owned TracedRule/TracedPWMControl wrappers log every proposal and the duty cycle after control; TLC checks clip-of-single / default 1 / conflict => ValueError and run stops / every recorded duty cycle in [-1,1]; scripted rules propose values far outside the range and non-applicable. Design level: Solver.tla (the simulation as a state machine over exact instances, all schedules of new solver / run / continue / reset / rerun; its invariants are these very clauses with eps = 0; it refines the finite sign abstraction LockAbs). Code level, one shared campaign: seeded random chains of 2..12 elements (loads of position / speed / time, rule sets, stop conditions, continuation with another dt and unit, reset / rerun, relations declared in any order, superseded and re-declared on a live model; half with every input in a random unit), crafted lock / stop / re-declaration scenarios, exact (dyadic) instances judged AT their thresholds, and executions of the repository's own solver test recorded by a pytest plugin; every recorded instant is one TLC state of Trace_Solver.tla, the solver's private lock bit is an unlogged spec variable.",
+   text="Harness-owned TracedRule/TracedPWMControl wrappers log every proposal and the duty cycle after control; TLC checks clip-of-single / default 1 / conflict => ValueError and run stops / every recorded duty cycle in [-1,1]; scripted rules propose values far outside the range and non-applicable. Design level: Solver.tla (the simulation as a state machine over exact instances, all schedules of new solver / run / continue / reset / rerun; its invariants are these very clauses with eps = 0; it refines the finite sign abstraction LockAbs). Code level, one shared campaign: seeded random chains of 2..12 elements (loads of position / speed / time, rule sets, stop conditions, continuation with another dt and unit, reset / rerun, relations declared in any order, superseded and re-declared on a live model, friction sweeps, idler pairs, double worm stages, further external torques on intermediate gears, user-set duty cycle and re-indexed output between runs, numpy-valued loads; half with every input in a random unit), crafted lock / stop / re-declaration scenarios, exact (dyadic) instances judged AT their thresholds, and executions of the repository's own solver test recorded by a pytest plugin; every recorded instant is one TLC state of Trace_Solver.tla, the solver's private lock bit is an unlogged spec variable.",
    ref='DESIGN.md section 4 C14, 3.6',
    note=TB + '; decisions within 1e-9 relative of their threshold are not judged (the trace spec branches); instances are seeded random, not exhaustive.'),
  'C15': dict(
    technique='TLA+ rule definitions Control.tla (timer window, braking start with static error, proportional ramp with minimum duty cycle, StartLimitCurrent through its quadratic; lemma current-law = limit model-checked) + TLC validation of every logged proposal at the logged state',
-   text="Every proposal of every built-in rule logged during whole controlled simulations is compared with the documented definition evaluated at the recorded state of that instant (also at the instant a run aborted); window boundaries within rounding distance are not judged. Design level: Solver.tla (the simulation as a state machine over exact instances, all schedules of new solver / run / continue / reset / rerun; its invariants are these very clauses with eps = 0; it refines the finite sign abstraction LockAbs). Code level, one shared campaign: seeded random chains of 2..12 elements (loads of position / speed / time, rule sets, stop conditions, continuation with another dt and unit, reset / rerun, relations declared in any order, superseded and re-declared on a live model; half with every input in a random unit), crafted lock / stop / re-declaration scenarios, exact (dyadic) instances judged AT their thresholds, and executions of the repository's own solver test recorded by a pytest plugin; every recorded instant is one TLC state of Trace_Solver.tla, the solver's private lock bit is an unlogged spec variable.",
+   text="Every proposal of every built-in rule logged during whole controlled simulations is compared with the documented definition evaluated at the recorded state of that instant (also at the instant a run aborted); window boundaries within rounding distance are not judged. Design level: Solver.tla (the simulation as a state machine over exact instances, all schedules of new solver / run / continue / reset / rerun; its invariants are these very clauses with eps = 0; it refines the finite sign abstraction LockAbs). Code level, one shared campaign: seeded random chains of 2..12 elements (loads of position / speed / time, rule sets, stop conditions, continuation with another dt and unit, reset / rerun, relations declared in any order, superseded and re-declared on a live model, friction sweeps, idler pairs, double worm stages, further external torques on intermediate gears, user-set duty cycle and re-indexed output between runs, numpy-valued loads; half with every input in a random unit), crafted lock / stop / re-declaration scenarios, exact (dyadic) instances judged AT their thresholds, and executions of the repository's own solver test recorded by a pytest plugin; every recorded instant is one TLC state of Trace_Solver.tla, the solver's private lock bit is an unlogged spec variable.",
    ref='DESIGN.md section 4 C15, 3.6',
    note=TB + '; decisions within 1e-9 relative of their threshold are not judged (the trace spec branches); instances are seeded random, not exhaustive.'),
  'C16': dict(
    technique='TLA+ stop relation Trace_Solver!StopFails (verdict recomputed from the recorded series; sensor reads logged by a harness-owned TracedSensor) checked by TLC at every computed instant',
-   text="One sensor read per computed instant after the initial one, reading the value recorded at that instant; verdict true => that instant is the last; a run shorter than requested => verdict true at its last instant. Design level: Solver.tla (the simulation as a state machine over exact instances, all schedules of new solver / run / continue / reset / rerun; its invariants are these very clauses with eps = 0; it refines the finite sign abstraction LockAbs). Code level, one shared campaign: seeded random chains of 2..12 elements (loads of position / speed / time, rule sets, stop conditions, continuation with another dt and unit, reset / rerun, relations declared in any order, superseded and re-declared on a live model; half with every input in a random unit), crafted lock / stop / re-declaration scenarios, exact (dyadic) instances judged AT their thresholds, and executions of the repository's own solver test recorded by a pytest plugin; every recorded instant is one TLC state of Trace_Solver.tla, the solver's private lock bit is an unlogged spec variable.",
+   text="One sensor read per computed instant after the initial one, reading the value recorded at that instant; verdict true => that instant is the last; a run shorter than requested => verdict true at its last instant; a threshold given in another unit than the reading that denotes the same magnitude up to rounding compares equal (C05), in the same unit the comparison is exact. Design level: Solver.tla (the simulation as a state machine over exact instances, all schedules of new solver / run / continue / reset / rerun; its invariants are these very clauses with eps = 0; it refines the finite sign abstraction LockAbs). Code level, one shared campaign: seeded random chains of 2..12 elements (loads of position / speed / time, rule sets, stop conditions, continuation with another dt and unit, reset / rerun, relations declared in any order, superseded and re-declared on a live model, friction sweeps, idler pairs, double worm stages, further external torques on intermediate gears, user-set duty cycle and re-indexed output between runs, numpy-valued loads; half with every input in a random unit), crafted lock / stop / re-declaration scenarios, exact (dyadic) instances judged AT their thresholds, and executions of the repository's own solver test recorded by a pytest plugin; every recorded instant is one TLC state of Trace_Solver.tla, the solver's private lock bit is an unlogged spec variable.",
    ref='DESIGN.md section 4 C16',
    note=TB + '; decisions within 1e-9 relative of their threshold are not judged (the trace spec branches); instances are seeded random, not exhaustive.'),
  'C17': dict(
    technique='TLA+ Gear!Recorded / SolverOps!RecordedKeys vs advertised variables, rectangular histories, kinds, live attribute = last sample, reset semantics; checked by TLC after every run / reset of every traced schedule',
-   text="After every run and reset the lengths of all time variables, their kinds, the advertised set against what the spec says is recorded (from the element data and its mating), and live attributes against last samples are validated. Design level: Solver.tla (the simulation as a state machine over exact instances, all schedules of new solver / run / continue / reset / rerun; its invariants are these very clauses with eps = 0; it refines the finite sign abstraction LockAbs). Code level, one shared campaign: seeded random chains of 2..12 elements (loads of position / speed / time, rule sets, stop conditions, continuation with another dt and unit, reset / rerun, relations declared in any order, superseded and re-declared on a live model; half with every input in a random unit), crafted lock / stop / re-declaration scenarios, exact (dyadic) instances judged AT their thresholds, and executions of the repository's own solver test recorded by a pytest plugin; every recorded instant is one TLC state of Trace_Solver.tla, the solver's private lock bit is an unlogged spec variable.",
+   text="After every run and reset the lengths of all time variables, their kinds, the advertised set against what the spec says is recorded (from the element data and its mating), and live attributes against last samples are validated; after every run that returns, snapshots at the first / last / an intermediate instant and an export of all histories must not raise. Design level: Solver.tla (the simulation as a state machine over exact instances, all schedules of new solver / run / continue / reset / rerun; its invariants are these very clauses with eps = 0; it refines the finite sign abstraction LockAbs). Code level, one shared campaign: seeded random chains of 2..12 elements (loads of position / speed / time, rule sets, stop conditions, continuation with another dt and unit, reset / rerun, relations declared in any order, superseded and re-declared on a live model, friction sweeps, idler pairs, double worm stages, further external torques on intermediate gears, user-set duty cycle and re-indexed output between runs, numpy-valued loads; half with every input in a random unit), crafted lock / stop / re-declaration scenarios, exact (dyadic) instances judged AT their thresholds, and executions of the repository's own solver test recorded by a pytest plugin; every recorded instant is one TLC state of Trace_Solver.tla, the solver's private lock bit is an unlogged spec variable.",
    ref='DESIGN.md section 4 C17',
    note=TB + '; decisions within 1e-9 relative of their threshold are not judged (the trace spec branches); instances are seeded random, not exhaustive.'),
 
